@@ -83,6 +83,19 @@ ExtensionLemma ==
             /\ BiSame(ForwardExt(b, c, ix), Bi(w \o <<c>>))
             /\ (BackwardExt(b, c, ix).size = 0) <=> ~Occurs(<<c>> \o w, t)
             /\ BiSame(InitIntervalWith(c, ix.less), Bi(<<c>>))
+\* the extension of an empty bi-interval (of a string that does not occur) is empty again, in both
+\* directions, whatever the symbols (the code relies on lower, lower_rev >= 1 there: no underflow)
+EmptyStaysEmpty ==
+    mode = "idle" =>
+        \A w \in Factors, c \in Alpha :
+            LET b  == IF w = << >> THEN InitInterval(N) ELSE Bi(w)
+                e1 == BackwardExt(b, c, ix)
+                e2 == ForwardExt(b, c, ix)
+            IN  \A c2 \in Alpha :
+                  /\ e1.size = 0 => (/\ e1.lower >= 1 /\ e1.lower_rev >= 1
+                                     /\ BackwardExt(e1, c2, ix).size = 0 /\ ForwardExt(e1, c2, ix).size = 0)
+                  /\ e2.size = 0 => (/\ e2.lower >= 1 /\ e2.lower_rev >= 1
+                                     /\ BackwardExt(e2, c2, ix).size = 0 /\ ForwardExt(e2, c2, ix).size = 0)
 \* forward sweep: the running interval and every pushed candidate are bi-intervals of P[i..i+len)
 FwdInv ==
     mode = "fwd" =>
